@@ -138,24 +138,24 @@ func (g *vfGen) runMore3(slice string) bool {
 }
 
 func (g *vfGen) chunks(total int) string {
-	if g.rng.Intn(4) == 0 {
+	if g.intn(4) == 0 {
 		return "~"
 	}
 	var cs []string
-	n := g.rng.Intn(12)
+	n := g.intn(12)
 	for i := 0; i < n; i++ {
 		var c int
-		switch g.rng.Intn(5) {
+		switch g.intn(5) {
 		case 0:
 			c = 0
 		case 1:
 			c = 1
 		case 2:
-			c = 1 + g.rng.Intn(7)
+			c = 1 + g.intn(7)
 		case 3:
-			c = 1 + g.rng.Intn(total+2)
+			c = 1 + g.intn(total+2)
 		default:
-			c = 512 + g.rng.Intn(4096)
+			c = 512 + g.intn(4096)
 		}
 		cs = append(cs, strconv.Itoa(c))
 	}
@@ -187,9 +187,9 @@ func (g *vfGen) genC05() {
 	inputs = append(inputs, js, []byte("a,b\n1,2\n3,4\n5,"), []byte("{\"a\":1}\n{\"b\":2}\n{\"c\":"))
 	n := g.pick(2500, 60000)
 	for i := 0; i < n; i++ {
-		in := inputs[g.rng.Intn(len(inputs))]
+		in := inputs[g.intn(len(inputs))]
 		var lim int
-		switch g.rng.Intn(8) {
+		switch g.intn(8) {
 		case 0:
 			lim = 0
 		case 1:
@@ -203,15 +203,15 @@ func (g *vfGen) genC05() {
 				lim = len(in) - 1
 			}
 		case 5:
-			lim = 1 + g.rng.Intn(64)
+			lim = 1 + g.intn(64)
 		case 6:
-			lim = 4096 + g.rng.Intn(8192)
+			lim = 4096 + g.intn(8192)
 		default:
-			lim = 1 + g.rng.Intn(len(in)+2)
+			lim = 1 + g.intn(len(in)+2)
 		}
 		errAt := -1
-		if g.rng.Intn(3) == 0 {
-			switch g.rng.Intn(4) {
+		if g.intn(3) == 0 {
+			switch g.intn(4) {
 			case 0:
 				errAt = 0
 			case 1:
@@ -219,10 +219,10 @@ func (g *vfGen) genC05() {
 			case 2:
 				errAt = lim
 			default:
-				errAt = g.rng.Intn(len(in) + 2)
+				errAt = g.intn(len(in) + 2)
 			}
 		}
-		g.emit(vfOp("reader", lim, in, g.chunks(len(in)), g.rng.Intn(2), errAt))
+		g.emit(vfOp("reader", lim, in, g.chunks(len(in)), g.intn(2), errAt))
 		if i%10 == 0 {
 			g.emit(vfOp("file", lim, in))
 		}
